@@ -150,39 +150,60 @@ def run(res, replay=None):
             res.sample({"schema": s.package, "message": jobs[0][0].name, "image_bytes": len(jobs[0][1]),
                         "truncations": len([1 for x in jobs if x[1] == jobs[0][1]]), "ops": jobs[0][3][:8]})
 
-    # (b) a view that starts past the end of the buffer (hostile <data> length in front of it)
+    # (b) hostile <data> lengths: the payload, and every view located after it, leave the buffer
     ps = Schema("hs_past", big_endian=False, sid=9)
     ps.add(TypeDef("messageHeader", "composite", members=[TypeDef(n, "type", prim="uint16") for n in ("blockLength", "templateId", "schemaId", "version")]))
-    ps.add(TypeDef("vd", "composite", members=[TypeDef("length", "type", prim="uint32"), TypeDef("varData", "type", prim="uint8", length=0)]))
-    mm = Message("P", 1)
-    mm.data.append(Data("d1", 1, "vd"))
-    mm.data.append(Data("d2", 2, "vd"))
-    ps.messages.append(mm)
-    xml = schema_to_xml(ps)
-    inc, rc, out = gen_headers(ps.package, xml)
-    drv = msgdrv.gen_driver_cpp(ps)
-    ddir = os.path.join(os.path.dirname(inc), "drv")
-    os.makedirs(ddir, exist_ok=True)
-    src = os.path.join(ddir, "driver.cpp")
-    if not os.path.exists(src) or open(src).read() != drv:
-        open(src, "w").write(drv)
-    buf = bytes(8) + (1000).to_bytes(4, "little") + bytes(52)       # d1.length = 1000 in a 64-byte buffer
-    lines = ["use P", "buf " + hx(buf), "dinfo . 1", "getd . 1"]
-    for (cxx, std, flags, defs) in cfgs[:2]:
-        try:
-            exe = cached_cpp("msgdrv", src, std=std, cxx=cxx, flags=flags, includes=(inc,), defines=defs,
-                             extra_hash=hash_files(tree_files(inc)))
-        except BuildError as e:
-            res.violation("driver-build", "probe driver does not build: " + str(e)[-300:], {"no_failing_input": True, "correspondence": "T1 probe"})
-            continue
-        rc, iout, err = run_lines(exe, lines)
-        res.count(("past-end", cxx, std))
-        for op, r in zip(lines[2:], iout[2:]):
-            if "ASSERT" not in r:
-                found |= res.violation("begin-past-end:%s" % op.split()[0],
-                                       "view starting past the end of the buffer: `%s` returned `%s` instead of invoking the handler "
-                                       "(SBEPP_SIZE_CHECK converts end - begin to size_t)" % (op, r),
-                                       {"schema_xml": xml, "buffer": hx(buf), "op": op, "observed": r, "config": [cxx, std]})
+    W = {"uint8": 1, "uint16": 2, "uint32": 4, "uint64": 8}
+    for pt in W:
+        ps.add(TypeDef("vd_" + pt, "composite", members=[TypeDef("length", "type", prim=pt), TypeDef("varData", "type", prim="uint8", length=0)]))
+        mm = Message("P_" + pt, 1 + list(W).index(pt))
+        mm.data.append(Data("d1", 1, "vd_" + pt))
+        mm.data.append(Data("d2", 2, "vd_" + pt))
+        ps.messages.append(mm)
+    pc = prepare_fixed(ps, cfgs[:2])
+    if pc.error:
+        res.violation("driver-build", "hostile-length probe driver: " + pc.error[1][-300:], {"no_failing_input": True, "correspondence": "T1 probe"})
+    else:
+        mlines, ilines, jobs = [], [], []
+        for mm in ps.messages:
+            pt = mm.name[2:]
+            w = W[pt]
+            tmax = (1 << (8 * w)) - 1
+            hostile = sorted({1, 40, 56 - w, 57 - w, 1000 & tmax, tmax, tmax - 1, tmax - w, tmax - w + 1, tmax - 2 * w, tmax // 2, tmax // 2 + 1})
+            for hv in hostile:
+                buf = bytes(8) + hv.to_bytes(w, "little") + bytes(range(1, 57 - w))   # 64 bytes in total
+                script = ["dinfo . 0", "getd . 0", "dinfo . 1", "getd . 1", "size"]
+                jobs.append((mm, hv, buf, script, len(mlines), len(ilines)))
+                mlines += [model_msg_line(ps, mm), "buf " + hx(buf)] + script
+                ilines += ["use " + mm.name, "buf " + hx(buf)] + script
+        mout = model.run(mlines)
+        for (cxx, std), exe in pc.exes.items():
+            rc, iout, err = run_lines(exe, ilines)
+            if rc != 0 or len(iout) != len(ilines):
+                found = True
+                res.violation("driver-crash:hostile-length", "probe driver crashed (%s %s): %s" % (cxx, std, err[-300:]), {"stderr": err[-1500:]})
+                continue
+            for (mm, hv, buf, script, mo, io) in jobs:
+                for j, op in enumerate(script):
+                    a = mout[mo + 2 + j]
+                    b2 = iout[io + 2 + j]
+                    if j >= 2 and 8 + 2 * W[mm.name[2:]] + hv >= 2 ** 64:
+                        # sizeof(length) + length wraps size_t: the next member is located BEFORE the view;
+                        # the property speaks about bytes at or beyond p+n only (observation in DESIGN.md 0.4)
+                        continue
+                    res.count(("hostile", mm.name, hv, op, cxx, std))
+                    base = {"schema_xml": pc.xml, "message": mm.name, "buffer": hx(buf), "d1_length": hv, "op": op,
+                            "model": a, "observed": b2, "config": [cxx, std]}
+                    oob = a == "OOB" or a.endswith("OOB")
+                    if "FAULT" in b2:
+                        found |= res.violation("silent-oob:hostile-length:%s" % mm.name[2:],
+                                               "`%s` with d1.length=%d in a 64-byte view touched memory beyond the view without invoking the handler" % (op, hv), base)
+                    elif oob and "ASSERT" not in b2:
+                        found |= res.violation("unreported-oob:hostile-length:%s" % mm.name[2:],
+                                               "`%s` with d1.length=%d in a 64-byte view returned `%s` although the accessed bytes leave the buffer" % (op, hv, b2), base)
+                    elif not oob and b2 != a:
+                        found |= res.violation("value:hostile-length:%s" % mm.name[2:],
+                                               "`%s` with d1.length=%d: implementation %s, model %s" % (op, hv, b2, a), base)
     res.extra["outcomes"] = dist
     if not ok_proof:
         proof_failure_violation(res, found)
